@@ -363,3 +363,39 @@ class Text:
             self.accepted.append(cands)
             return True
         return False
+
+
+_TEXT_CACHE = {}
+
+
+def text_of(node):
+    """Text for an arbitrary node without module context: names bound inside the node (locals, comprehension variables; not the
+    parameters of a function node) are renamable, every other name is literal.  One Text per node and process, so all fragments
+    ever tested on the node must agree on one renaming."""
+    key = id(node)
+    hit = _TEXT_CACHE.get(key)
+    if hit is not None and hit[0] is node:
+        return hit[1]
+    bound = set()
+    for n in ast.walk(node):
+        if isinstance(n, ast.Name) and isinstance(n.ctx, (ast.Store, ast.Del)):
+            bound.add(n.id)
+        elif isinstance(n, ast.ExceptHandler) and n.name:
+            bound.add(n.name)
+        elif isinstance(n, (ast.FunctionDef, ast.AsyncFunctionDef)) and n is not node:
+            bound.add(n.name)
+            for a in n.args.posonlyargs + n.args.args + n.args.kwonlyargs:
+                bound.add(a.arg)
+        elif isinstance(n, ast.Lambda):
+            for a in n.args.args:
+                bound.add(a.arg)
+    params = _params(node) if isinstance(node, (ast.FunctionDef, ast.AsyncFunctionDef)) else set()
+    if isinstance(node, (ast.FunctionDef, ast.AsyncFunctionDef)):
+        own = {a.arg for a in node.args.posonlyargs + node.args.args + node.args.kwonlyargs}
+        bound -= own
+    free = {n.id for n in ast.walk(node) if isinstance(n, ast.Name)} - bound
+    t = Text(ast.Module(body=[], type_ignores=[]), node, literal=free | params)
+    # names that are bound inside must not be taken literally even if they coincide with builtins
+    t.fixed -= (bound - free - params)
+    _TEXT_CACHE[key] = (node, t)
+    return t
